@@ -202,6 +202,17 @@ Definition session_clause (tr : list wevent) (t : tid) (after : option session) 
 Definition is_follower (tr : list wevent) (t : tid) : bool :=
   match spec_leader (map erase tr) t with Some l => negb (Nat.eqb l t) | None => false end.
 
+Definition has_session_question (tr : list wevent) (t : tid) : bool :=
+  match question_of tr t with
+  | Some q => match q_session q with Some _ => true | None => false end
+  | None => false
+  end.
+
+(* every failing clause of caller t carries the signature of a listed finding *)
+Definition clause_failures_explained (tr : list wevent) (t : tid) (after : option session) : bool :=
+  (subject_clause tr t || negb (guard_clause tr t)) &&
+  (session_clause tr t after || (is_follower tr t && has_session_question tr t)).
+
 Definition judge (c : case) : N :=
   match c with
   | CGen tr stray obs =>
@@ -247,13 +258,21 @@ Definition judge (c : case) : N :=
                             (Some (wo_ran o, wo_res o, 0%nat)) false) obs in
       let subj_ok := forallb (fun o => subject_clause tr (wo_tid o)) obs in
       let sess_ok := forallb (fun o => session_clause tr (wo_tid o) (wo_sess o)) obs in
-      let guarded := forallb (fun o => guard_clause tr (wo_tid o)) obs in
-      (* the session clause can only fail for a merged caller; the leader's own record is checked too *)
-      let leaders_sess_ok :=
-        forallb (fun o => is_follower tr (wo_tid o) || session_clause tr (wo_tid o) (wo_sess o)) obs in
+      (* Attribution. A falsified monitor is attributed to the known findings iff EVERY failing
+         clause of EVERY caller carries the signature of a listed finding:
+           - a failing subject clause: the caller's or its leader's question violates the guard
+             (':' in the e-mail, ',' in a group name, group list [""])            -> C16-K2;
+           - a failing session clause: the caller is a merged follower of a session-keyed call
+             (the leader's own record must satisfy the clause)                     -> C16-K1;
+           - the generic coalescing clause has no known finding: it must hold.
+         One schedule may exhibit both findings at once; the reported code is the smallest. Any
+         failing clause without a signature leaves the case unattributed (a VIOLATION). *)
+      let explained := forallb (fun o => clause_failures_explained tr (wo_tid o) (wo_sess o)) obs in
       let known : N :=
-        if gen_ok && subj_ok && negb sess_ok && leaders_sess_ok then 1       (* C16-K1: merged caller's record stale *)
-        else if gen_ok && negb subj_ok && sess_ok && negb guarded then 2     (* C16-K2: ':' / ',' key collision *)
+        if gen_ok && explained then
+          (if negb sess_ok then 1           (* C16-K1: merged caller's record stale *)
+           else if negb subj_ok then 2      (* C16-K2: ':' / ',' key collision *)
+           else 0)
         else 0 in
       code (negb model_ok) (gen_ok && subj_ok && sess_ok) known
   | CStorm max_overlap execs obs =>
